@@ -640,8 +640,85 @@ def check_epsilon_lexicase_with_missing_values(h: Harness):
                    f"the survivors of the filter along that order are {alive}", {"rows": [[None if v != v else v for v in r_] for r_ in rows], "mins": mins, "order": order})
 
 
+def check_lexicase_infinite_values(h: Harness):
+    """a candidate whose value on a case is INFINITELY good (+inf on a maximised case, -inf on a minimised one: a perfect score
+    reported that way) is the best of that case: plain lexicase keeps exactly the candidates that equal the best along the case
+    order the event drew, and the winner is one of them"""
+    from geneticengine.problems import MultiObjectiveProblem
+    rng = h.rng
+    inf = float("inf")
+    for trial in range(h.n(150, 1500)):
+        n = rng.randint(2, 6)
+        ncases = rng.randint(1, 3)
+        mins = [rng.random() < 0.5 for _ in range(ncases)]
+        rows = [[float(rng.randint(0, 4)) for _ in range(ncases)] for _ in range(n)]
+        for _ in range(rng.randint(1, 3)):
+            c = rng.randrange(ncases)
+            rows[rng.randrange(n)][c] = -inf if mins[c] else inf
+        problem = MultiObjectiveProblem(list(mins), lambda p: list(p[1]))
+        rep = StubRep(ncases)
+        inds = [Individual((i, row), rep) for i, row in enumerate(rows)]
+        src = Recording(NativeRandomSource(rng.randrange(10**6)))
+        try:
+            res = list(LexicaseSelection(epsilon=False).apply(problem, SequentialEvaluator(), rep, src, list(inds), 1, 0))
+        except Exception as e:  # noqa: BLE001
+            h.fail("LexicaseSelection.apply", "raises", f"lexicase on {rows} raised {type(e).__name__}: {e}", [trial])
+            continue
+        order = src.shuffles[0] if src.shuffles else list(range(ncases))
+        alive = list(range(n))
+        for c in order:
+            if len(alive) <= 1:
+                break
+            vals = [rows[i][c] for i in alive]
+            best = min(vals) if mins[c] else max(vals)
+            alive = [i for i in alive if rows[i][c] == best]
+        h.seen(f"lex-inf:{rows}:{mins}:{order}", nontrivial=len(alive) < n)
+        h.count("lexicase-with-infinitely-good-values")
+        w = res[0].genotype[0] if res else None
+        if w not in alive:
+            h.fail("LexicaseSelection.apply", "winner-not-a-lexicase-survivor",
+                   f"LexicaseSelection() on components {rows} (minimize={mins}), case order {order}: the winner is candidate {w}, the survivors of the "
+                   f"filter along that order are {alive}", {"rows": [[str(v) for v in r_] for r_ in rows], "mins": mins, "order": order})
+
+
+def check_programs_that_print_alike(h: Harness):
+    """programs whose pretty-printer does not tell them apart (a user's `__str__` that abbreviates) are still different programs with
+    different fitness: a tournament over a pool nobody has evaluated yet is won by a participant no other participant beats"""
+    from props.eval_common import LossyStrRep
+    rng = h.rng
+    for trial in range(h.n(40, 400)):
+        n = rng.randint(4, 9)
+        minimize = trial % 2 == 0
+        keys = rng.sample(range(-50, 50), n)
+        rep = LossyStrRep(keys)
+        problem = SingleObjectiveProblem(lambda p: float(p[1]), minimize=minimize)
+        inds = [Individual(rep.create_genotype(None), rep) for _ in range(n)]
+        ts = rng.choice([2, 3])
+        k = rng.randint(1, n)
+        src = Recording(NativeRandomSource(rng.randrange(10**6)))
+        try:
+            res = list(TournamentSelection(ts, with_replacement=True).apply(problem, SequentialEvaluator(), rep, src, list(inds), k, 0))
+        except Exception as e:  # noqa: BLE001
+            h.fail("TournamentSelection.apply", "raises", f"tournament over programs that print alike raised {type(e).__name__}: {e}", [trial])
+            continue
+        h.seen(f"print-alike:{trial}:{keys}:{ts}:{k}", nontrivial=True)
+        h.count("tournaments-over-programs-that-print-alike")
+        for j, win in enumerate(res):
+            parts = src.choices[j * ts:(j + 1) * ts]
+            wv = float(win.genotype[1])
+            better = [p for p in parts if (float(p.genotype[1]) < wv if minimize else float(p.genotype[1]) > wv)]
+            if better:
+                h.fail("TournamentSelection.apply", "winner-worse-than-participant",
+                       f"tournament {j} of size {ts} over an unevaluated pool of programs that all print as '<program>' ({'min' if minimize else 'max'}imise, "
+                       f"fitness values {keys}): the winner has fitness {wv}, the participant {better[0].genotype} has {float(better[0].genotype[1])}",
+                       {"trial": trial, "keys": keys, "ts": ts})
+                break
+
+
 def run(h: Harness):
     check_real_trees_tiny_fitness(h)
+    check_lexicase_infinite_values(h)
+    check_programs_that_print_alike(h)
     check_epsilon_lexicase_with_missing_values(h)
     check_partly_evaluated_pools(h)
     check_lexicase_uninformative_case(h)
